@@ -113,7 +113,7 @@ class C29(core.Check):
             'written in random write() pieces; names incl. trailing blanks, 8 and >8 chars, duplicates), image '
             'closed, parsed by an independent CAS parser (record/block structure, CRCs), reopened, 1-6 open '
             'requests (existing names in any order, missing names, type filters, empty name) each read to the '
-            'end; malformed: control chars in names, seg/offset out of range. non-trivial = at least one file '
+            'end with bounded reads (INPUT$ sizes 1..255 from a per-case plan, length of every answer observed); malformed: control chars in names, seg/offset out of range. non-trivial = at least one file '
             'read back; distinct by hash')
     histogram = None
 
@@ -136,6 +136,11 @@ class C29(core.Check):
                            'reqs': [[A, []], [B, []]]})
         cs.append({'fmt': 'wav', 'raw': 0, 'files': [F(A, TD, 253, 120, 0, post=[13]), F(B, TM, 257, seg=1, off=2)],
                    'reqs': [[B, [TM]], [A, [TD]], [B, []]]})
+        # seeded C29d: INPUT$(100,#1) over a 400-byte data file; the third request straddles the record boundary
+        cs.append({'fmt': 'cas', 'raw': 0, 'plan': [100], 'files': [F(A, TD, 400, 1, 3)], 'reqs': [[A, [TD]]]})
+        cs.append({'fmt': 'wav', 'raw': 0, 'plan': [200, 57], 'files': [F(A, TD, 400, 1, 3), F(B, TA, 600, 2, 5)],
+                   'reqs': [[B, []], [A, []]]})
+        cs.append({'fmt': 'cas', 'raw': 1, 'plan': [254, 2, 255, 1], 'files': [F(A, TA, 767, 9, 11)], 'reqs': [[A, []]]})
         # D29a witness: a failed search that skipped a file must not leave the device "open"
         cs.append({'fmt': 'cas', 'raw': 0, 'files': [F(A, TB, 10), F(B, TB, 20)],
                    'reqs': [[C, []], [B, []], [A, []]]})
@@ -193,7 +198,7 @@ class C29(core.Check):
     def gen_cases(self, n):
         rng = self.rng
         hist = {'files': 0, 'text_254mod255': 0, 'text_boundary': 0, 'binary': 0, 'requests': 0,
-                'req_missing': 0, 'req_typed': 0, 'malformed': 0, 'wav': 0, 'fake_header_class': 0, 'bit_level': 0}
+                'req_missing': 0, 'req_typed': 0, 'malformed': 0, 'wav': 0, 'fake_header_class': 0, 'bit_level': 0, 'plan_straddles': 0}
         out = []
         n_wav = 150 if self.tier == 'thorough' else 12
         for i in range(n):
@@ -265,7 +270,18 @@ class C29(core.Check):
             if wav:
                 reqs = reqs[:3]
                 hist['wav'] += 1
-            case = {'fmt': 'wav' if wav else 'cas', 'raw': raw, 'files': files, 'reqs': reqs}
+            r = rng.random()
+            if r < 0.25:
+                plan = [rng.choice([2, 3, 7, 50, 64, 100, 128, 200, 254])]
+            elif r < 0.4:
+                plan = [rng.choice([1, 255])]
+            elif r < 0.75:
+                plan = [rng.randrange(1, 256) for _ in range(rng.choice([1, 2, 3, 5]))]
+            else:
+                plan = [rng.choice([1, 2, 100, 253, 254, 255]) for _ in range(rng.choice([2, 3, 4]))]
+            case = {'fmt': 'wav' if wav else 'cas', 'raw': raw, 'files': files, 'reqs': reqs, 'plan': plan}
+            hist['plan_straddles'] += int(any(f['t'] in TEXT and len(f['pre']) + f['n'] + len(f['post']) > 255
+                                              for f in files) and any(255 % n for n in plan))
             if not wav and rng.random() < 0.2:
                 case['bits'] = 1
                 hist['bit_level'] += 1
@@ -278,6 +294,11 @@ class C29(core.Check):
     def content(case, f):
         noeof = f['t'] in TEXT and not case['raw']
         return f['pre'] + pat(noeof, f['a'], f['b'], f['n']) + f['post']
+
+    @staticmethod
+    def plan(case):
+        """Sizes of the bounded reads used to read text/data files back (INPUT$ allows 1..255)."""
+        return [max(1, int(n)) for n in (case.get('plan') or [100])]
 
     @staticmethod
     def pieces(data, cuts):
@@ -335,14 +356,20 @@ class C29(core.Check):
                         fo = dev.open(0, bytes(name), bytes(types), b'I', b'', b'', 128, 0, 0, 0, None)
                         try:
                             if isinstance(fo, cassette.CASTextFile):
+                                # INPUT$(n, #f) is `file.read(n)`: bounded reads of the sizes of the plan, cyclically,
+                                # until one returns nothing; the length of every answer is recorded
                                 data = b''
+                                lens = []
+                                plan = self.plan(case)
                                 while True:
-                                    c = fo._fhandle.read(100) if case['raw'] else fo.read(100)
+                                    n = plan[len(lens) % len(plan)]
+                                    c = fo._fhandle.read(n) if case['raw'] else fo.read(n)
+                                    lens.append(len(c))
                                     if not c:
                                         break
                                     data += c
                                 r = {'ok': 1, 't': fo.filetype[0] if fo.filetype else 0, 'bin': 0,
-                                     'seg': 0, 'off': 0, 'len': 0, 'data': list(data)}
+                                     'seg': 0, 'off': 0, 'len': 0, 'data': list(data), 'lens': lens}
                             else:
                                 data = fo.read()
                                 r = {'ok': 1, 't': fo.filetype[0] if fo.filetype else 0, 'bin': 1,
@@ -395,6 +422,8 @@ class C29(core.Check):
         for r in res['reads']:
             if r['ok']:
                 out += [0, r['t'], r['seg'], r['off'], r['len']] + digest(r['data'])
+                if 'lens' in r:
+                    out += digest(r['lens'])
             else:
                 out += r['err']
             out += self.enc_msgs(r['msgs'])
@@ -420,8 +449,9 @@ class C29(core.Check):
             fs.append('{| wf_name := %s; wf_type := %d; wf_seg := %s; wf_off := %s; wf_chunks := cut %s %s |}' % (
                 core.zl(f['name']), f['t'], core.zl([f['seg']])[1:-1], core.zl([f['off']])[1:-1], content, cuts))
         reqs = ['(%s, %s)' % (core.zl(n), core.zl(t)) for n, t in case['reqs']]
-        term = '(run_case %s [%s] [%s])' % ('true' if case['fmt'] == 'cas' else 'false',
-                                             '; '.join(fs), '; '.join(reqs))
+        plan = '[' + ';'.join('%d%%nat' % n for n in self.plan(case)) + ']'
+        term = '(run_case %s [%s] [%s] %s)' % ('true' if case['fmt'] == 'cas' else 'false',
+                                                '; '.join(fs), '; '.join(reqs), plan)
         if case.get('bits') and case['fmt'] == 'cas':
             term = '(%s ++ bits_case [%s])' % (term, '; '.join(fs))
         return term
@@ -497,6 +527,17 @@ class C29(core.Check):
                     what, len(r['data']), len(g['data']),
                     next((i for i, (x, y) in enumerate(zip(r['data'], g['data'])) if x != y),
                          min(len(r['data']), len(g['data']))))
+            if 'lens' in r:
+                # a bounded read returns fewer bytes than asked for only at the end of the file
+                plan = self.plan(case)
+                left = len(g['data'])
+                for i, got in enumerate(r['lens']):
+                    n = plan[i % len(plan)]
+                    if got != min(n, left):
+                        return ('%s: read(%d) (INPUT$) at offset %d returned %d bytes although %d remain: '
+                                'Input past end in the middle of the file'
+                                % (what, n, len(g['data']) - left, got, left))
+                    left -= got
             if g['t'] not in TEXT and (r['seg'], r['off'], r['len']) != (g['seg'], g['off'], len(g['data'])):
                 return '%s: seg/offset/length %r, expected %r' % (
                     what, (r['seg'], r['off'], r['len']), (g['seg'], g['off'], len(g['data'])))
